@@ -17,6 +17,7 @@ EVID = os.environ.get("VERIF_DEV_EVIDENCE", os.path.join(ROOT, "evidence"))
 REPLAYS = os.path.join(EVID, "replays")
 JAR = "/opt/veriftools/tla/tla2tools.jar:/opt/veriftools/tla/CommunityModules-deps.jar"
 NCPU = os.cpu_count() or 4
+REPLAYING = False
 
 
 class ToolError(Exception):
@@ -376,7 +377,8 @@ class Check:
             "violations": len(real),
         }
         os.makedirs(EVID, exist_ok=True)
-        with open(os.path.join(EVID, self.prop + ".json"), "w") as f:
+        # a replay of one recorded case is not a run of the check: its (tiny) evidence goes next to the replay files
+        with open(os.path.join(REPLAYS, self.prop + ".last-replay.json") if REPLAYING else os.path.join(EVID, self.prop + ".json"), "w") as f:
             json.dump(ev, f, indent=1)
         for d in self.drift[:10]:
             print("DRIFT: property=%s %s" % (self.prop, json.dumps(d)[:300]))
